@@ -59,6 +59,17 @@ CLAIMED['C01'] = dict(
     note='Trusted: z3; NewtonSolver converges only when max|residual| < tol (not encoded); RPN/C++ evaluation of the same expressions is C15; templates <= 6 nodes / 8 links; floats as reals.',
     ref='DESIGN.md section 4, C01')
 
+CLAIMED['C02'] = dict(
+    engine='amlsmt+symx',
+    technique='the head-loss row of every link built by the real model builder and evaluated by the real expression code on z3 proxies; SMT (z3 NRA, fractional powers as strictly monotone uninterpreted functions) decides the documented head-flow law, oddness, monotonicity, continuity per link type and status; parameter formulas and pump-curve coefficients executed on symbolic attributes',
+    text='For every link class (pipe incl. CV, head pump with 1/2/3-point curve, power pump, PRV, PSV, FCV, TCV) in each status it can have, on templates with links into/out of tanks and '
+         'reservoirs and parallel links, for both Hazen-Williams approximations: closed => residual is the flow itself; open pipe => residual = hs - he - F(q) with the documented F, F odd, '
+         'zero at zero, strictly increasing, piecewise pieces as documented and continuous; pumps on H = A - B q^C above the smoothing point, extension non-increasing; power pump P = dH q 9810; '
+         'active valves hold their setting; open valves / TCV obey 8K/(g pi^2 d^4) q^2. For ALL flows and heads, and (second pass) all positive coefficients.',
+    note='Trusted: z3; floats as reals (1e-8 relative slack where the code folds float constants); Newton solve drives residuals to zero; 3-point pump fit (scipy) enters as returned numbers; '
+         'reverse-flow branches of pumps need the solver and are not claimed.',
+    ref='DESIGN.md section 4, C02')
+
 NOT_APPLICABLE = {
     'C03': 'compares the numerical output of the closed EPANET shared library with a compiled Newton/SuperLU iteration; neither can be executed '
            'symbolically with the tools on this image and a contract standing in for EPANET would be the property itself (DESIGN.md section 5)',
